@@ -30,3 +30,12 @@ k("C16",
   "Trusted: Kani/CBMC; ordered-set model for BTreeSet; the stack itself is only observed in the native replay.",
   "CBMC recursion-unwinding assertion as oracle on Kani harnesses; native 2 MiB-stack replay",
   "DESIGN.md 4 C16")
+
+k("C09",
+  "The two IRI regular expressions are extracted from the current source, translated to SMT-LIB RegLan over an exact minterm alphabet and z3 5.1 decides, for "
+  "strings of EVERY length, L(IRI_REGEX_SRC) = L(RFC 3987 IRI), L(IRELATIVE_REF_REGEX_SRC) = L(irelative-ref) and disjointness (5 obligations, all unsat = proof). "
+  "Any witness is replayed on the real validators and on Iri::as_base()/resolve() (no panic, result valid) before being reported.",
+  "Trusted: z3's regex theory (bounded cross-check on z3 4.8.12/cvc5), my regex-syntax parser (validated against the real regex crate every run), the RFC transcription. "
+  "Outside: equality of resolve() with RFC 3986 5.2 (oxiri).",
+  "regex -> SMT-LIB RegLan equivalence/inclusion decided by z3 (unbounded), witnesses replayed natively",
+  "DESIGN.md 4 C09", level="proof")
